@@ -70,6 +70,29 @@ def classify_fields(F):
 _ctor_cache = {}
 
 
+def canon_unsigned_zero(t, unsigned_args):
+    """for an unsigned argument p, the tests `0 < p`, `p >= 1`, `p > 0` all say `p != 0`: rewrite them to the `p == 0` atom"""
+    from terms import cu, lit, mk_gamma
+
+    def go(x):
+        if not isinstance(x, tuple) or not x:
+            return x
+        y = tuple(go(z) for z in x)
+        if y[0] == "gamma":
+            a, pol = lit(y[1])
+            t_arm, f_arm = (y[2], y[3]) if pol else (y[3], y[2])
+            if a[0] == "<" and a[1] == cu(0) and isinstance(a[2], tuple) and a[2][0] == "arg" and a[2][1] in unsigned_args:
+                return mk_gamma(("==", a[2], cu(0)), f_arm, t_arm)      # 0 < p
+            if a[0] == "<=" and a[1] == cu(1) and isinstance(a[2], tuple) and a[2][0] == "arg" and a[2][1] in unsigned_args:
+                return mk_gamma(("==", a[2], cu(0)), f_arm, t_arm)      # 1 <= p
+            if a[0] == "<" and a[2] == cu(1) and isinstance(a[1], tuple) and a[1][0] == "arg" and a[1][1] in unsigned_args:
+                return mk_gamma(("==", a[1], cu(0)), t_arm, f_arm)      # p < 1
+            if a[0] == "<=" and a[2] == cu(0) and isinstance(a[1], tuple) and a[1][0] == "arg" and a[1][1] in unsigned_args:
+                return mk_gamma(("==", a[1], cu(0)), t_arm, f_arm)      # p <= 0
+        return y
+    return go(t)
+
+
 def ctor(F, s):
     """symbolic constructor of struct s: dict(params=[names], ret=term, ok=adt term or None, fields={name: term})"""
     k = (id(F), s)
@@ -82,6 +105,8 @@ def ctor(F, s):
     names = symex.fn_params(fn)
     params = [(names.get(i, "a%d" % i), fn.locals[i]["ty"]["s"]) for i in range(1, fn.arg_count + 1)]
     r = symex.evaluate(F, fn, symex.Policy(F, modular=False))
+    r = dict(r)
+    r["ret"] = canon_unsigned_zero(r["ret"], {p for p, ty in params if ty.startswith("u")})
     ok = None
     for conds, leaf in leaves(r["ret"]):
         if isinstance(leaf, tuple) and leaf[0] == "adt":
